@@ -130,6 +130,33 @@ CHECKS = {
          'their argument, never a remembered one).'),
    note='Run-time inheritance of the mode through user-supplied child-state factories is not decided.',
    technique='AST def-use of parsing-state flow (no re-binding, derived-from-argument), shape rules on math parser/events, table evaluation'),
+ 'C05': dict(level='other', design='DESIGN.md sections 3 (E1, E3), 4 and 5 C05',
+   text=('Exception-escape analysis (least fixpoint over the resolved call graph, strict configuration) of '
+         'LatexWalker.parse_content over every parser class of the package: each escaping (exception class, raise site) '
+         'pair must be a LatexWalkerParseError subclass, an abstract stub, or a raise listed in the reviewed table of '
+         'configuration/protocol errors; crash-construct rules G1-G9 on all reachable functions (call binding, unbound '
+         'names, missing self attributes, None dereference, index before bounds check, max() of nothing, constant index '
+         'without length fact, truthiness of positions); every parse error is constructed with a position that cannot be '
+         'None and annotated with line/column from it; stray closing tokens and unmet required stop conditions raise.'),
+   note=('Implicit exceptions are covered only through the named crash constructs; that every faulty document reaches a '
+         'rejecting raise is not decided. Call resolution over-approximates (CHA + name-keyed fallback).'),
+   technique='call-graph construction + exception-escape dataflow (fixpoint) + repository-specific crash-construct lints on reachable functions'),
+ 'C06': dict(level='other', design='DESIGN.md sections 3 (E3), 4 and 5 C06',
+   text=('Escape analysis in the tolerant configuration (tolerance check and the parse_content context manager modelled '
+         'from their code), recovery hand-over between __exit__ and parse_content, affine proof that every recovery token '
+         'ends at the resume position with positive width, the handler that attaches partial nodes is the first one that '
+         'can see a parse error, and mode non-interference: tolerant_parsing is read only inside error handling, so an '
+         'error-free parse executes the same statements in both modes; plus G1-G9 on reachable functions.'),
+   note='Termination is decided only through token-level progress; equality of trees on valid input follows from non-interference only for error-free runs.',
+   technique='exception-escape dataflow per configuration, def-use of the recovery hand-over, affine progress obligations, handler-order analysis'),
+ 'C07': dict(level='other', design='DESIGN.md sections 3, 4 and 5 C07',
+   text=('Escape analysis of latex_to_text, G1-G9 on every function reachable from it and from each replacement callable '
+         'of the default table (module-level lambdas included), a node-kind typestate analysis of attribute reads in '
+         'latex2text (kinds inferred from the dispatch, the tables and calls that pass nodes on), option-value/arm and '
+         'policy-key agreement, cross-table checks between spec classes, default tables and rendering code, callable '
+         'signatures vs what apply_simplify_repl passes, None-guards on the legacy nodeargs view.'),
+   note='Bounded running time and third-party simplify_repl callables are not decided.',
+   technique='exception-escape dataflow + crash-construct lints + node-kind typestate inference + evaluated default tables'),
 }
 
 NOT_YET = {}
